@@ -182,9 +182,14 @@ func (rr *SIG) Verify(k *KEY, buf []byte) error {
 		}
 	case ECDSAP256SHA256, ECDSAP384SHA384:
 		pk := k.publicKeyECDSA()
-		r := new(big.Int).SetBytes(sig[:len(sig)/2])
-		s := new(big.Int).SetBytes(sig[len(sig)/2:])
 		if pk != nil {
+			// RFC 6605, section 4: the signature is r | s, each of the length
+			// of the curve's order - nothing longer, nothing shorter.
+			if n := (pk.Curve.Params().BitSize + 7) / 8; len(sig) != 2*n {
+				return ErrSig
+			}
+			r := new(big.Int).SetBytes(sig[:len(sig)/2])
+			s := new(big.Int).SetBytes(sig[len(sig)/2:])
 			if ecdsa.Verify(pk, hashed, r, s) {
 				return nil
 			}
